@@ -34,7 +34,7 @@ ASSUMPTIONS = [
     "targets are read back with plain zarr, independent of cubed",
     "sentinel value -7 (or True for bool) does not occur in source data",
 ]
-NSHARDS = {"quick": 16, "thorough": 32}
+NSHARDS = {"quick": 16, "thorough": 16}
 PER_SHARD = {"quick": 90, "thorough": 900}
 SENT = -7
 
@@ -352,10 +352,10 @@ def finalize(tier, merged):
     return {
         "rule": RULE,
         "floors": [
-            ("targets read back and compared with the paste model", c.get("targets_read_back", 0), 800 if tier == "quick" else 14000),
+            ("targets read back and compared with the paste model", c.get("targets_read_back", 0), 800 if tier == "quick" else 7000),
             ("distinct call-shape cells exercised", len(merged["hist"].get("config", {})), 40),
-            ("calls whose source had been computed before it was stored", c.get("sources_computed_before_the_store", 0), 150 if tier == "quick" else 2500),
-            ("rejected calls whose trace was inspected", c.get("rejected", 0), 100 if tier == "quick" else 2000),
+            ("calls whose source had been computed before it was stored", c.get("sources_computed_before_the_store", 0), 150 if tier == "quick" else 1250),
+            ("rejected calls whose trace was inspected", c.get("rejected", 0), 100 if tier == "quick" else 1000),
         ],
         "assumptions": ASSUMPTIONS,
     }
